@@ -10,6 +10,7 @@ import (
 	"os"
 	"sort"
 	"strings"
+	"sync"
 )
 
 type (
@@ -28,6 +29,9 @@ type (
 	// debugDoer wraps a doer and implements DebugDoer.
 	debugDoer struct {
 		Doer
+		// mu protects Request and Response: a doer is shared by the
+		// concurrent calls made through a client.
+		mu sync.Mutex
 		// Request is the captured request.
 		Request *http.Request
 		// Response is the captured response.
@@ -85,18 +89,30 @@ func (dd *debugDoer) Do(req *http.Request) (*http.Response, error) {
 	}
 	resp.Body = io.NopCloser(bytes.NewBuffer(respb))
 
-	dd.Response = resp
-
 	req.Body = io.NopCloser(bytes.NewBuffer(reqb))
-	dd.Request = req
 
-	dd.Fprint(os.Stderr)
+	dd.mu.Lock()
+	dd.Response = resp
+	dd.Request = req
+	fprintExchange(os.Stderr, req, resp)
+	dd.mu.Unlock()
 
 	return resp, err
 }
 
 // Printf dumps the captured request and response details to w.
 func (dd *debugDoer) Fprint(w io.Writer) {
+	dd.mu.Lock()
+	defer dd.mu.Unlock()
+	fprintExchange(w, dd.Request, dd.Response)
+}
+
+// fprintExchange dumps the given request and response details to w.
+func fprintExchange(w io.Writer, request *http.Request, response *http.Response) {
+	dd := struct {
+		Request  *http.Request
+		Response *http.Response
+	}{request, response}
 	if dd.Request == nil {
 		return
 	}
